@@ -400,7 +400,7 @@ Lemma sig_of_builtin name ctx sig ret :
   sig_of name ctx = Some (sig, ret) ->
   exists b, find_builtin name = Some b /\ ctx_name (b_ctx b) = ctx /\ b_params b = sig /\ b_return b = ret.
 Proof.
-  unfold sig_of. rewrite builtins_table_ok. unfold find_builtin, builtins_table. cbn [map find fst snd b_name b_ctx b_params b_return ctx_name].
+  unfold sig_of. rewrite <- (proj1 builtins_spec_ok), builtins_table_ok. unfold find_builtin, builtins_table. cbn [map find fst snd b_name b_ctx b_params b_return ctx_name].
   destruct (String.eqb "balance" name) eqn:E1; cbn [andb].
   { destruct (String.eqb "origin" ctx) eqn:C; [intros H; injection H as <- <-; eexists; repeat split; apply String.eqb_eq in C; exact C|].
     cbn [find]. destruct (String.eqb "meta" name) eqn:E2; cbn [andb].
@@ -524,9 +524,9 @@ Proof.
   induction ds as [|d ds IH]; intros te te' s [A M] H; cbn [decls_ok check_var_decls] in *.
   - injection H as <-. exists s. repeat split; assumption.
   - destruct (vd_name d) as [[rn n]|] eqn:En; [|discriminate]. destruct (vd_type d) as [[rt t]|] eqn:Et; [|discriminate].
-    destruct (amem n te || negb (mem_str t Tables.allowed_types)) eqn:Eg; [discriminate|].
+    destruct (amem n te || negb (mem_str t spec_allowed_types)) eqn:Eg; [discriminate|].
     apply Bool.orb_false_iff in Eg. destruct Eg as [Hfresh Hall]. apply Bool.negb_false_iff in Hall.
-    rewrite allowed_types_ok in Hall. change (mem_str t allowed_types) with (is_type_allowed t) in Hall.
+    rewrite <- (proj2 builtins_spec_ok), allowed_types_ok in Hall. change (mem_str t allowed_types) with (is_type_allowed t) in Hall.
     (* the declaration itself *)
     assert (Hd : exists s1, check_var_decl d s = Ok s1 /\ ec s1 = ec s /\ agrees2 (te ++ [(n, t)]) s1
                  /\ (match vd_origin d with
